@@ -88,7 +88,7 @@ def gen_measure(t):
         tu.add('w_offsym%d' % d, '%s& r, const Matrix%d%d<%s>& A' % (E, d, d, E), 'r = maxOffDiagSymm(A);', d=d, symm=True)
     return tu
 
-SWEEP_OPAQUE = ('twoSidedJacobiRotation', '14jacobiRotation', '10maxOffDiagI', '14maxOffDiagSymm')
+SWEEP_OPAQUE = ('twoSidedJacobiRotation', '14jacobiRotation', '10maxOffDiagI', '14maxOffDiagSymm', '12makeIdentity')
 def gen_sweep(t):
     """the public Jacobi drivers with the single rotations and the measures left as calls: which index pairs a sweep visits"""
     E = ELEM[t][0]
@@ -382,6 +382,22 @@ def check_sweeps(rep, ws, t):
             elif not all(any(o.get('k') == 'v' and o.get('id') in scaled for o in c.get('ops', [])) for c in cmps):
                 rel_bad = 'the sweep loop compares the measure of the current matrix with something other than tol * (measure of the input matrix): for uniformly tiny or huge matrices an absolute threshold stops too early or never'
         want = set((j, k) for j in range(d) for k in range(j + 1, d))
+        # the accumulated rotations start from the identity on every path: U and V (the eigenvector matrix) are set to the
+        # identity in the entry block, which dominates the sweeps, the sign fix and the sorting - also for an input that is already
+        # diagonal, where the sweep loop is skipped
+        init_bad = None
+        outp = {'svd': (1, 3), 'eig': (2,)}[m['kind']]
+        entry = f['blocks'][0]
+        inited = set()
+        for i in entry['insts']:
+            if i.get('op') in ('call', 'invoke') and 'makeIdentity' in i.get('callee', ''):
+                for o in i.get('ops', []):
+                    if o.get('k') == 'a': inited.add(int(o.get('i', o.get('v', -1))))
+        anywhere = sum(1 for b in f['blocks'] for i in b['insts'] if i.get('op') in ('call', 'invoke') and 'makeIdentity' in i.get('callee', ''))
+        if not set(outp) <= inited:
+            init_bad = 'the result matri%s (argument%s %s) %s not set to the identity in the entry block (%d makeIdentity call(s) elsewhere): on a path that skips them - an input that is already diagonal - the caller\'s old contents are sign-fixed, sorted and returned as the orthonormal factors' % ('ces' if len(outp) > 1 else 'x', 's' if len(outp) > 1 else '', sorted(set(outp) - inited), 'are' if len(outp) > 1 else 'is', anywhere - len([1 for i in entry['insts'] if i.get('op') in ('call', 'invoke') and 'makeIdentity' in i.get('callee', '')]))
+        if init_bad:
+            rep.ob(oid, 'R12.sweep', VIOLATED, init_bad, where); continue
         if rel_bad:
             rep.ob(oid, 'R12.sweep', VIOLATED, rel_bad, where); continue
         if odd or not pairs:
